@@ -183,20 +183,34 @@ def fixed_texts(limit):
 
 
 def generate(tier, seed):
-    '''-> list of (family, lines, limit, d) ; deterministic'''
+    '''-> list of (family, lines, limit, d) ; deterministic.  The quick tier
+    thins the family x limit grid (not the offset windows): per limit every
+    literal in one of its two statement contexts, the second-line windows for
+    a sixth of the families, rotating with the limit.'''
+    quick = tier == "quick"
     cases = []
     seen = set()
-    for L in limits(tier, seed):
+    for li, L in enumerate(limits(tier, seed)):
         for fi, f in enumerate(FAMILIES):
             x = f[3]
+            if quick and f[0].startswith("lit-call-") and (fi + li + seed) % 2:
+                continue
+            if quick and f[0].startswith("lit-write-") and (fi + li + seed) % 2:
+                continue
             for chunk in (1, 2):
                 # first output line ends near column L; the second one holds
                 # about L-2 further characters of the input
+                if chunk == 2 and quick and (fi + li + seed) % 6:
+                    continue
+                if chunk == 2 and not quick and (fi + li + seed) % 2:
+                    continue
                 base = L if chunk == 1 else 2 * L - 2
                 win = window(x, tier)
-                if chunk == 2:
-                    win = range(win.start, win.stop, 2 if tier == "quick" else 1)
                 for d in win:
+                    # quick: inside X every third offset (rotating with the
+                    # limit), every offset around both ends of X
+                    if quick and win.start + 4 <= d <= -5 and (d + li) % 3:
+                        continue
                     line = _line(f, base + d, fi + seed)
                     if line is None or len(line) <= L:
                         continue
